@@ -66,6 +66,43 @@ def _sc_bind_by_dependence(prog):
     return out
 
 
+def _pair_loop_env(prog, fi, se, at):
+    """`for a, b in <pairs>` around node `at`, the pairs being a comprehension of tuples (written there or returned by a helper):
+    a and b are bound to the tuple's components in terms of the comprehension variable - `[(o - 1, o) for o in cols]` makes a = b - 1"""
+    pm = astq.parent_map(fi.node)
+    loop = astq.enclosing(pm, at, (ast.For,))
+    while loop is not None:
+        if isinstance(loop.target, ast.Tuple) and all(isinstance(t, ast.Name) for t in loop.target.elts):
+            it = loop.iter
+            owner = fi
+            for _ in range(3):
+                if isinstance(it, ast.Name):
+                    d_ = astq.unique_def(astq.assignments(owner), it.id)
+                    if d_ is None:
+                        break
+                    it = d_
+                elif isinstance(it, ast.Call) and not isinstance(it.func, ast.Attribute):
+                    try:
+                        r = prog.resolve_call(owner, it)
+                    except Exception:
+                        r = None
+                    rets = [x for x in ast.walk(r.node) if isinstance(x, ast.Return) and x.value is not None] if isinstance(getattr(r, "node", None), ast.FunctionDef) else []
+                    if len(rets) != 1:
+                        break
+                    owner, it = r, rets[0].value
+                else:
+                    break
+            if isinstance(it, ast.ListComp) and isinstance(it.elt, ast.Tuple) and len(it.elt.elts) == len(loop.target.elts) and len(it.generators) == 1 \
+                    and isinstance(it.generators[0].target, ast.Name):
+                v = it.generators[0].target.id
+                se2 = symidx.SymEval(prog, owner, stop={v})
+                vals = [se2.ev(e_) for e_ in it.elt.elts]
+                if all(x is not None for x in vals):
+                    for t, x in zip(loop.target.elts, vals):
+                        se.env[t.id] = x
+        loop = astq.enclosing(pm, loop, (ast.For,))
+
+
 def check(prog, run):
     run.rule("R-neighbour", "SC_apply compares column o with column o-1; match = nanargmin|f_prev - f_i|, one index for f, xi, phi; "
              "|df|/f < err_fn and |dxi|/xi < err_xi and 1-MAC < err_phi; range(ordmin, ordmax+1, step); first column skipped", 12)
@@ -184,9 +221,12 @@ def check(prog, run):
             ob("R-neighbour", f"{qty}: current vs matched previous pole", None, f"could not separate current/previous accesses in `{astq.src(l, 90)}`", node=ifn)
             continue
         se = symidx.SymEval(prog, fi)
+        _pair_loop_env(prog, fi, se, ifn)
         ccur, cprev = se.ev(cur[0].col), se.ev(prev[0].col)
         d = (cprev - ccur) if (ccur is not None and cprev is not None) else None
-        ob("R-neighbour", f"{qty}: compared with the previous order (column o-1)", d is not None and d == P.c(-1),
+        # decided only when the difference is a NUMBER: two column variables whose relation was not read are not "another column"
+        okd = None if d is None or not d.is_const() else d == P.c(-1)
+        ob("R-neighbour", f"{qty}: compared with the previous order (column o-1)", okd,
            f"current column {astq.src(cur[0].col, 40)}, compared column {astq.src(prev[0].col, 40)} (difference {d!r})", repr(d), ifn)
         curcols[qty] = cur[0].col
         idx_exprs[qty] = prev[0].row
@@ -219,18 +259,24 @@ def check(prog, run):
                 if len(prevc) == 1 and len(curc) == 1 and prevc[0].table == tF and curc[0].table == tF:
                     se = symidx.SymEval(prog, fi)
                     d = se.ev(prevc[0].col) - se.ev(curc[0].col) if se.ev(prevc[0].col) is not None and se.ev(curc[0].col) is not None else None
-                    okm = d is not None and d == P.c(-1) and _is_loop_row(curc[0].row)
+                    se_ = symidx.SymEval(prog, fi)
+                    _pair_loop_env(prog, fi, se_, ifn)
+                    d = se_.ev(prevc[0].col) - se_.ev(curc[0].col) if se_.ev(prevc[0].col) is not None and se_.ev(curc[0].col) is not None else None
+                    okm = (d == P.c(-1) and _is_loop_row(curc[0].row)) if (d is not None and d.is_const()) else None
                     why += f" -> nearest in {prevc[0].table}[:, o{d!r}] to {curc[0]!r}"
         if arr is None and arr_any is not None:
             why += " (not a NaN-aware arg-min)"
         ob("R-neighbour", "match = nanargmin |f_prev(all poles of order o-1) - f_i|", okm, why, astq.src(ix, 70), ifn)
     # ---- loop range, column formula, first column skipped
     outer = None
-    for n in ast.walk(fi.node):
-        if isinstance(n, ast.For) and astq._contains(n, ifn) and symidx.is_range(prog, fi, n.iter) is not None:
-            outer = n
-            break
-    if outer is None:
+    loops_ = [n for n in ast.walk(fi.node) if isinstance(n, ast.For) and astq._contains(n, ifn)]
+    # the loop over the orders is the OUTERMOST loop around the comparison (ast.walk is breadth first: the first one found)
+    if loops_ and symidx.is_range(prog, fi, loops_[0].iter) is not None:
+        outer = loops_[0]
+    if outer is None and not lowered and loops_:
+        ob("R-neighbour", "order loop", None, f"the orders are iterated by `for {astq.src(loops_[0].target, 20)} in {astq.src(loops_[0].iter, 50)}`, not by a range(): which orders are "
+           f"inspected, and that the first one is skipped, is not read off it")
+    elif outer is None:
         ob("R-neighbour", "order loop", None, "loop over orders not found")
     else:
         se = symidx.SymEval(prog, fi)
@@ -353,6 +399,83 @@ def first_order(prog, run):
             else:
                 run.ob("R-first-order", fi.qual, "skipped order = column 0", True if on_index else None,
                        f"`{astq.src(st, 50)}` guarded by `{astq.src(on_index[0], 40)}`" if on_index else f"`{astq.src(st, 50)}`: no guard on the order index found around it", file=f, node=st)
+    if not n:
+        # the orders iterated as a prepared list of (previous, current) columns: what the list leaves out must be column 0 - a filter on the
+        # VALUE of the column (`o > 0`) - and not the first ELEMENT of the list of columns (`cols[1:]`, zip(cols[:-1], cols[1:])), which is
+        # column int(ordmin / step)
+        rawp = prog.raw
+        for loop in ast.walk(fi.node):
+            if not (isinstance(loop, ast.For) and isinstance(loop.target, (ast.Tuple, ast.Name))):
+                continue
+            if isinstance(loop.iter, ast.Call) and astq.src(loop.iter.func).split(".")[-1] in ("range", "trange", "arange", "ndindex", "enumerate"):
+                continue
+            stores = [s_ for s_ in ast.walk(loop) if isinstance(s_, ast.Assign) and any(isinstance(t_, ast.Subscript) and isinstance(t_.value, ast.Name) and t_.value.id in rets for t_ in s_.targets)]
+            if not stores:
+                continue
+            if isinstance(loop.target, ast.Name):
+                # `for o in cols[1:]` / `for o in cols[cols > 0]`
+                e_ = loop.iter
+                v1, w1 = None, f"columns `{astq.src(e_, 40)}`: not read"
+                if isinstance(e_, ast.Subscript) and isinstance(e_.value, ast.Name):
+                    sl = e_.slice
+                    if isinstance(sl, ast.Slice) and isinstance(sl.lower, ast.Constant) and sl.lower.value == 1 and sl.upper is None:
+                        d2 = astq.unique_def(astq.assignments(fi), e_.value.id)
+                        zero = d2 is not None and ("range(0," in astq.src(d2, 300).replace(" ", ""))
+                        if not zero:
+                            v1, w1 = False, (f"`for {loop.target.id} in {astq.src(e_, 30)}` leaves out the first ELEMENT of `{e_.value.id}`: that is column int(ordmin / step), which has a "
+                                             f"previous order whenever ordmin > 0")
+                    elif isinstance(sl, ast.Compare) and isinstance(sl.left, ast.Name) and sl.left.id == e_.value.id and len(sl.ops) == 1 and isinstance(sl.comparators[0], ast.Constant) \
+                            and ((isinstance(sl.ops[0], (ast.Gt, ast.NotEq)) and sl.comparators[0].value == 0) or (isinstance(sl.ops[0], ast.GtE) and sl.comparators[0].value == 1)):
+                        v1, w1 = True, f"`{astq.src(e_, 40)}`: column 0 is left out by its value"
+                n += 1
+                run.ob("R-first-order", fi.qual, "skipped order = column 0", v1, w1, witness=w1[:80], file=f, node=loop)
+                continue
+            it, owner = loop.iter, fi
+            for _ in range(3):
+                if isinstance(it, ast.Name):
+                    d_ = astq.unique_def(astq.assignments(owner), it.id)
+                    if d_ is None:
+                        break
+                    it = d_
+                elif isinstance(it, ast.Call) and astq.src(it.func) == "list" and len(it.args) == 1:
+                    it = it.args[0]
+                elif isinstance(it, ast.Call) and not isinstance(it.func, ast.Attribute) and astq.src(it.func) not in ("zip", "enumerate"):
+                    try:
+                        r = rawp.resolve_call(owner, it)
+                    except Exception:
+                        r = None
+                    rr = [x for x in ast.walk(r.node) if isinstance(x, ast.Return) and x.value is not None] if isinstance(getattr(r, "node", None), ast.FunctionDef) else []
+                    if len(rr) != 1:
+                        break
+                    owner, it = r, rr[0].value
+                else:
+                    break
+            verdict, why = None, f"pairs `{astq.src(it, 60)}`: not read"
+
+            def drops_first(e_):
+                return isinstance(e_, ast.Subscript) and isinstance(e_.slice, ast.Slice) and isinstance(e_.slice.lower, ast.Constant) and e_.slice.lower.value == 1 and e_.slice.upper is None
+
+            def starts_at_zero(seq):
+                d2 = astq.unique_def(astq.assignments(owner), seq.id) if isinstance(seq, ast.Name) else seq
+                txt = astq.src(d2, 300).replace(" ", "") if d2 is not None else ""
+                return "range(0," in txt or "arange(0," in txt
+            if isinstance(it, ast.ListComp) and len(it.generators) == 1 and isinstance(it.generators[0].target, ast.Name) and isinstance(it.elt, ast.Tuple):
+                g_ = it.generators[0]
+                v_ = g_.target.id
+                cur_is_v = isinstance(it.elt.elts[-1], ast.Name) and it.elt.elts[-1].id == v_
+                val_filter = any(isinstance(c_, ast.Compare) and isinstance(c_.left, ast.Name) and c_.left.id == v_ and len(c_.ops) == 1 and isinstance(c_.comparators[0], ast.Constant)
+                                 and ((isinstance(c_.ops[0], (ast.Gt, ast.NotEq)) and c_.comparators[0].value == 0) or (isinstance(c_.ops[0], ast.GtE) and c_.comparators[0].value == 1)) for c_ in g_.ifs)
+                if cur_is_v and val_filter:
+                    verdict, why = True, f"`{astq.src(it, 60)}`: column 0 is left out by its value"
+                elif drops_first(g_.iter) and not starts_at_zero(g_.iter.value):
+                    verdict, why = False, f"`{astq.src(it, 60)}` leaves out the first ELEMENT of `{astq.src(g_.iter.value, 20)}`: that is column int(ordmin / step), which has a previous order whenever ordmin > 0"
+            elif isinstance(it, ast.Call) and astq.src(it.func) == "zip" and len(it.args) == 2 and drops_first(it.args[1]):
+                seq = it.args[1].value
+                if not starts_at_zero(seq):
+                    verdict, why = False, (f"`{astq.src(it, 60)}`: the current columns are `{astq.src(it.args[1], 20)}` - the first ELEMENT of `{astq.src(seq, 20)}` is left out, that is column "
+                                           f"int(ordmin / step), which has a previous order whenever ordmin > 0")
+            n += 1
+            run.ob("R-first-order", fi.qual, "skipped order = column 0", verdict, why, witness=why[:80], file=f, node=loop)
     if not n:
         run.ob("R-first-order", fi.qual, "skipped order = column 0", None, "no store of labels inside a loop over range(ordmin, ..) found", file=f)
 
